@@ -139,3 +139,34 @@ package basicauth
 //@ // constructors and helpers that this directive's setup calls but that live outside setup.go: the same safety sweep
 //@ // (index, slice, division, nil-map store, nil dereference, explicit panic) as for the setup code itself
 //@ use @verif/specs/stdlib.spec:stdlib
+
+//@ unit basicauth_setup frames=on props=C03,C11 nilchecks=on filter=`basicauth\.setup$`
+//@ // C03 "protected paths never disclosed without credentials" for EVERY address of a server block: each run of the setup
+//@ // (casket runs it once per address) parses the rules itself and registers a handler that carries exactly the rules this
+//@ // run parsed - never a handler without rules because an earlier run already parsed them
+//@ use @verif/specs/stdlib.spec:casket_api
+//@ ghost parsedNow int
+//@ ghost parsedRules int
+//@ func basicAuthParse
+//@   requires c != nil
+//@   modifies ghost:parsedNow
+//@   ensures parsedNow == old(parsedNow) + 1
+//@ extern (*github.com/tmpim/casket/caskethttp/httpserver.SiteConfig).AddMiddleware
+//@ func setup
+//@   requires c != nil && parsedNow == 0
+//@   modifies ghost:parsedNow
+//@   at call (*github.com/tmpim/casket/caskethttp/httpserver.SiteConfig).AddMiddleware before [the_handler_carries_the_rules_parsed_in_this_very_run] parsedNow == 1 && basic.Rules == rules
+//@   ensures [rules_parsed_in_every_run] parsedNow == 1
+
+//@ unit plain_matcher frames=on props=C03 filter=`basicauth\.PlainMatcher$|basicauth\.PlainMatcher\$1$`
+//@ // C03: a plain-text password matches only itself - both digests that are compared are taken over ALL bytes of their
+//@ // password (the configured one when the matcher is made, the offered one at every request), whatever its length
+//@ extern crypto/sha1.New
+//@   ensures result != nil
+//@ extern log.Printf
+//@ extern crypto/subtle.ConstantTimeCompare
+//@   pure
+//@ func PlainMatcher
+//@   at call invoke:(io.Writer).Write before [the_whole_configured_password_is_hashed] len(arg0) == len(passw)
+//@ func PlainMatcher$1
+//@   at call invoke:(io.Writer).Write before [the_whole_offered_password_is_hashed] len(arg0) == len(pw)
